@@ -336,13 +336,15 @@ class UserActions(object):
 
   @useraction
   def ApplyDocActions(self, doc_actions):
-    for doc_action in doc_actions:
-      self._do_doc_action(actions.action_from_repr(doc_action))
+    with self._engine.replaying_doc_actions():
+      for doc_action in doc_actions:
+        self._do_doc_action(actions.action_from_repr(doc_action))
 
   @useraction
   def ApplyUndoActions(self, undo_actions):
-    for undo_action in reversed(undo_actions):
-      self._do_doc_action(actions.action_from_repr(undo_action))
+    with self._engine.replaying_doc_actions():
+      for undo_action in reversed(undo_actions):
+        self._do_doc_action(actions.action_from_repr(undo_action))
 
   @useraction
   def Calculate(self):
